@@ -192,6 +192,7 @@ ShapeOK == \A s \in 1..n :
 ChainBounded == \A s \in 1..n : father[s] # 0 =>
                    (lim[father[s]] # NONE /\ Depth(s) <= anc[s] /\ anc[s] <= lim[father[s]])
 
-\* states are immutable as maps: no call changes what an existing state answers
+\* states are immutable as maps (the Spec layer only appends); with GetOK and EqOK holding in
+\* every reachable state this gives: no call changes what an existing state answers
 Immutable == [][\A s \in 1..n : map'[s] = map[s]]_vars
 =============================================================================
